@@ -1,1 +1,283 @@
-(* placeholder until the metrics engineer delivers *)
+(* Props/C13.v — C13: metrics are exact and add up across calendar periods.
+   Only statements, each closed by an existing lemma (Proofs/MetricsP.v, Proofs/MetricsCivil.v) and
+   followed by Print Assumptions; Examples show that the hypotheses are satisfiable and that they
+   cannot be dropped (the *_refuted theorems are the known findings M1, M2, M3, by computation).
+
+   Vocabulary (Spec/MetricsSpec.v, Model/Metrics.v):
+     count_in f a b            number of integer instants t, a <= t < b, with f t = true
+     measure evs a b           the executable spec of "duration covered by evs inside [a,b)"
+     total_duration_ tl s e    the model of calgebra.metrics._total_duration
+     cached_timeline tl a b    the model of make_timeline( *tl[a:b] ) in _windowed_agg
+     period_windows_dt z a b p the model of _period_windows_with_dt (None = out of fuel)
+     chain ws s0               windows contiguous from s0 on, none reversed
+     zone_wf u z               the zone hypothesis on the transition table (Proofs/MetricsP.v section 6) *)
+From CG Require Import Proofs.Defs Proofs.MetricsP Proofs.MetricsCivil Proofs.MetricsIso Spec.MetricsSpec.
+
+(* ---------- exactness ---------- *)
+
+(* the spec's measure is the number of covered instants *)
+Theorem C13_measure_counts_instants :
+  forall evs a b, measure evs a b = count_in (covers evs) a b.
+Proof. exact measure_is_count. Qed.
+Print Assumptions C13_measure_counts_instants.
+
+(* _total_duration of a stored timeline over a window = measure of its coverage inside the window:
+   overlapping, nested, duplicated, unbounded events are flattened exactly *)
+Theorem C13_total_is_measure :
+  forall evs ws we, Forall wf_ivl evs -> NEG_INF < ws -> ws < we -> we < POS_INF ->
+    total_duration_ (Stored evs) ws we = measure evs ws we.
+Proof. exact total_is_measure. Qed.
+Print Assumptions C13_total_is_measure.
+
+(* the same through _windowed_agg: the timeline is materialised once as tl[A:B] and a period window
+   (s,e) may stick out of [A,B): the value is the measure inside the period clipped to the range *)
+Theorem C13_total_is_measure_per_period :
+  forall evs A B s e, Forall wf_ivl evs -> NEG_INF < A -> A < B -> B < POS_INF ->
+    NEG_INF < s -> s < e -> e < POS_INF ->
+    total_duration_ (cached_timeline (Stored evs) A B) s e = measure evs (Z.max A s) (Z.min B e).
+Proof. exact total_is_measure_cached. Qed.
+Print Assumptions C13_total_is_measure_per_period.
+
+(* ---------- additivity ---------- *)
+
+Theorem C13_measure_additive :
+  forall evs a b c, a <= b <= c -> measure evs a c = measure evs a b + measure evs b c.
+Proof. exact measure_additive. Qed.
+Print Assumptions C13_measure_additive.
+
+(* any chain of windows reaching over the range: per-window measures (clipped to the range) add up *)
+Theorem C13_additivity :
+  forall evs A B ws s0, chain ws s0 -> s0 <= A -> B <= chain_end ws s0 -> A <= B ->
+    sumZ (map (spec_total evs A B) ws) = measure evs A B.
+Proof. exact C13_additivity_chain. Qed.
+Print Assumptions C13_additivity.
+
+(* ---------- the windows of the stepping loops ---------- *)
+
+(* contiguous for every zone table, period and range *)
+Theorem C13_windows_contiguous :
+  forall z a b p ws, period_windows_dt z a b p = Some ws -> contigP ws.
+Proof. exact windows_contiguous. Qed.
+Print Assumptions C13_windows_contiguous.
+
+(* forward-running and covering the range, for hour / day / week / month / year / full, under the zone
+   hypothesis for the stepping unit and when the range end is not the second showing of a period
+   boundary *)
+Theorem C13_windows_cover_range :
+  forall z a b p ws,
+    zone_wf (unit_of_period p) z = true -> a < b ->
+    (utc_to_wall z b mod unit_of_period p = 0 -> fold_of z b = false) ->
+    period_windows_dt z a b p = Some ws ->
+    exists s0, chain ws s0 /\ s0 <= a /\ b <= chain_end ws s0.
+Proof. exact windows_cover_range. Qed.
+Print Assumptions C13_windows_cover_range.
+
+(* aligned: each window begins at the instant the local clock reaches its label (a full hour for
+   hourly stepping, a local midnight otherwise) and ends at the instant it reaches a later such label *)
+Theorem C13_windows_aligned :
+  forall z a b p ws,
+    zone_wf (unit_of_period p) z = true -> p <> PFull ->
+    period_windows_dt z a b p = Some ws -> Forall (aligned_win (unit_of_period p) z) ws.
+Proof. exact windows_aligned. Qed.
+Print Assumptions C13_windows_aligned.
+
+Theorem C13_period_measures_add_up :
+  forall z a b p ws evs,
+    zone_wf (unit_of_period p) z = true -> a < b ->
+    (utc_to_wall z b mod unit_of_period p = 0 -> fold_of z b = false) ->
+    period_windows_dt z a b p = Some ws ->
+    sumZ (map (spec_total evs a b) ws) = measure evs a b.
+Proof. exact C13_additivity_windows. Qed.
+Print Assumptions C13_period_measures_add_up.
+
+(* the rows of total_duration(period=p): each is the measure inside its period, together they add up
+   to the measure of the range *)
+Theorem C13_total_duration_rows :
+  forall z evs a b p ws,
+    Forall wf_ivl evs -> NEG_INF < a -> a < b -> b < POS_INF ->
+    zone_wf (unit_of_period p) z = true ->
+    (utc_to_wall z b mod unit_of_period p = 0 -> fold_of z b = false) ->
+    period_windows_dt z a b p = Some ws -> Forall win_bounded ws ->
+    let vals := map (fun w : win => let '(_, s, e) := w in
+                                    total_duration_ (cached_timeline (Stored evs) a b) s e) ws in
+    vals = map (spec_total evs a b) ws /\ sumZ vals = measure evs a b.
+Proof. exact MetricsP.C13_total_duration_rows. Qed.
+Print Assumptions C13_total_duration_rows.
+
+(* what the zone hypothesis gives: timestamps of period boundaries and wall clocks of instants are
+   ordered consistently *)
+Theorem C13_zone_boundary_before :
+  forall u z L t, zone_wf u z = true -> L mod u = 0 -> L <= utc_to_wall z t -> ts0 z L <= t.
+Proof. exact zone_wf_G1. Qed.
+Print Assumptions C13_zone_boundary_before.
+
+Theorem C13_zone_boundary_after :
+  forall u z L t, zone_wf u z = true -> L mod u = 0 -> utc_to_wall z t < L -> t < ts0 z L.
+Proof. exact zone_wf_G2. Qed.
+Print Assumptions C13_zone_boundary_after.
+
+(* ---------- ratios ---------- *)
+
+Theorem C13_ratio_in_unit :
+  forall evs a b w, a <= b -> rat_in_unit (ratio_of evs a b w) = true.
+Proof. exact ratio_in_unit. Qed.
+Print Assumptions C13_ratio_in_unit.
+
+Theorem C13_model_ratio_in_unit :
+  forall evs A B s e,
+    Forall wf_ivl evs -> NEG_INF < A -> A < B -> B < POS_INF -> NEG_INF < s -> e < POS_INF ->
+    let q := ratio_win (cached_timeline (Stored evs) A B) s e in
+    0 <= fst q <= snd q /\ 0 < snd q.
+Proof. exact model_ratio_in_unit. Qed.
+Print Assumptions C13_model_ratio_in_unit.
+
+Theorem C13_grouped_ratio_in_unit :
+  forall ts, Forall (fun q => 0 <= fst q <= snd q) ts ->
+    let q := combine_ratios ts in 0 <= fst q <= snd q /\ 0 < snd q.
+Proof. exact combine_ratios_in_unit. Qed.
+Print Assumptions C13_grouped_ratio_in_unit.
+
+(* ---------- the oracle and additivity ---------- *)
+
+(* whatever windows an implementation returns: if they pass the oracle's window check (contiguous,
+   local calendar periods, reaching over the range) the per-period measures add up to the range's *)
+Theorem C13_accepted_windows_add_up :
+  forall z p a b ws evs, windows_ok z p a b ws = true -> a < b ->
+    sumZ (map (spec_total evs a b) ws) = measure evs a b.
+Proof. exact windows_ok_additive. Qed.
+Print Assumptions C13_accepted_windows_add_up.
+
+(* ---------- count and extremum ---------- *)
+
+(* count_intervals' per-window value is the number of intervals the slice returns (model: by
+   definition); for a stored timeline that is the number of events with an instant in the window *)
+Theorem C13_count_is_hits :
+  forall evs ws we, ws <= we ->
+    count_ (Stored evs) ws we = Z.of_nat (length (filter (hits ws we) evs)).
+Proof. exact count_is_hits. Qed.
+Print Assumptions C13_count_is_hits.
+
+(* max_duration / min_duration return an interval of the slice (so: clipped to the window) whose length
+   is extreme among the slice's bounded intervals; None iff the slice has no bounded interval *)
+Theorem C13_extremum :
+  forall tl ws we fm,
+    match extremum_duration tl ws we fm with
+    | None => forall y, In y (tslice tl ws we) -> blen y = None
+    | Some x => In x (tslice tl ws we) /\
+                exists l, blen x = Some l /\
+                          forall y d, In y (tslice tl ws we) -> blen y = Some d -> if fm then d <= l else l <= d
+    end.
+Proof. exact extremum_spec. Qed.
+Print Assumptions C13_extremum.
+
+(* ---------- calendar ---------- *)
+Theorem C13_civil_roundtrip :
+  forall d, days_from_civil (year_of d) (month_of d) (day_of d) = d.
+Proof. exact civil_roundtrip. Qed.
+Print Assumptions C13_civil_roundtrip.
+
+(* the model's week_of_year key (Thursday rule, as date.isocalendar) is the ISO 8601 week number by
+   the 4-January rule the oracle uses, for every day *)
+Theorem C13_iso_week :
+  forall d, iso_week d = iso_week_jan4 d /\ 1 <= iso_week d <= 53.
+Proof. exact iso_week_agrees. Qed.
+Print Assumptions C13_iso_week.
+
+(* ---------- the hypotheses are satisfiable ---------- *)
+
+(* transitions 2020-2025 of the tables exported from zoneinfo by harness/props_metrics.py *)
+Definition la : zone := mkZone (-28800)
+  [(1583661600, -25200); (1604221200, -28800); (1615716000, -25200); (1636275600, -28800);
+   (1647165600, -25200); (1667725200, -28800); (1678615200, -25200); (1699174800, -28800);
+   (1710064800, -25200); (1730624400, -28800); (1741514400, -25200); (1762074000, -28800)].
+Definition havana : zone := mkZone (-18000)
+  [(1583643600, -14400); (1604206800, -18000); (1615698000, -14400); (1636261200, -18000);
+   (1647147600, -14400); (1667710800, -18000); (1678597200, -14400); (1699160400, -18000);
+   (1710046800, -14400); (1730610000, -18000); (1741496400, -14400); (1762059600, -18000)].
+Definition chatham : zone := mkZone 49500
+  [(1586008800, 45900); (1601128800, 49500); (1617458400, 45900); (1632578400, 49500);
+   (1648908000, 45900); (1664028000, 49500); (1680357600, 45900); (1695477600, 49500);
+   (1712412000, 45900); (1727532000, 49500); (1743861600, 45900); (1758981600, 49500)].
+Definition troll : zone := mkZone 0
+  [(1585443600, 7200); (1603587600, 0); (1616893200, 7200); (1635642000, 0);
+   (1648342800, 7200); (1667091600, 0); (1679792400, 7200); (1698541200, 0);
+   (1711846800, 7200); (1729990800, 0); (1743296400, 7200); (1761440400, 0)].
+Definition st_johns_2005 : zone := mkZone (-12600)
+  [(1081049460, -9000); (1099189860, -12600); (1112499060, -9000); (1130639460, -12600);
+   (1143948660, -9000); (1162089060, -12600)].
+
+(* America/Los_Angeles and America/Havana (midnight DST) meet the zone hypothesis for hourly and for
+   daily stepping; Pacific/Chatham only for daily stepping although its shift is one hour *)
+Example C13_zone_hypothesis_satisfiable :
+  zone_wf 3600 la = true /\ zone_wf 86400 la = true /\
+  zone_wf 3600 havana = true /\ zone_wf 86400 havana = true /\
+  zone_wf 86400 chatham = true /\ zone_wf 3600 chatham = false /\
+  zone_wf 3600 troll = false /\ zone_wf 86400 st_johns_2005 = false.
+Proof. vm_compute. repeat split; reflexivity. Qed.
+
+(* a day with a 23-hour local day (2024-03-10 in Los Angeles): an overlapping, a nested and an
+   unbounded event; range unaligned; all hypotheses of C13_total_duration_rows hold and the daily rows
+   40000 + 10400 + 9600 s are the measure of the range (the middle day is 82800 s long) *)
+Example C13_rows_hypotheses_satisfiable :
+  let evs := [mkI (Some 1710000000) (Some 1710040000) (Rich 1); mkI (Some 1710010000) (Some 1710020000) (Rich 2);
+              mkI (Some 1710130000) None (Rich 3)] in
+  let a := 1710000000 in let b := 1710150000 in
+  Forall wf_ivl evs /\ zone_wf (unit_of_period PDay) la = true /\
+  (utc_to_wall la b mod unit_of_period PDay = 0 -> fold_of la b = false) /\
+  exists ws, period_windows_dt la a b PDay = Some ws /\ Forall win_bounded ws /\
+             map (fun w : win => let '(_, s, e) := w in
+                                 total_duration_ (cached_timeline (Stored evs) a b) s e) ws
+             = [40000; 10400; 9600] /\
+             map (fun w : win => let '(_, s, e) := w in e - s) ws = [86400; 82800; 86400] /\
+             measure evs a b = 60000.
+Proof.
+  cbv zeta. split; [|split; [|split]].
+  - repeat constructor; unfold wf_ivl, fstart, fend, NEG_INF, POS_INF; simpl; lia.
+  - vm_compute. reflexivity.
+  - vm_compute. intros H; first [reflexivity | discriminate H].
+  - eexists. split; [vm_compute; reflexivity|]. split.
+    + repeat constructor; unfold NEG_INF, POS_INF; lia.
+    + vm_compute. repeat split; reflexivity.
+Qed.
+
+(* ---------- the hypotheses cannot be dropped: known findings, by computation ---------- *)
+
+Definition model_totals (z : zone) (evs : list ivl) (a b : Z) (p : period) : option (list Z) :=
+  match period_windows_dt z a b p with
+  | Some ws => Some (map (fun w : win => let '(_, s, e) := w in
+                                         total_duration_ (cached_timeline (Stored evs) a b) s e) ws)
+  | None => None
+  end.
+
+(* M1: a two-hour shift under hourly stepping (Antarctica/Troll, 2024-03-31): a window runs
+   backwards and an hour is counted twice: 28800 s reported inside a range of 25200 s *)
+Theorem hourly_antarctica_troll_refuted :
+  let a := 1711836000 in let b := 1711861200 in let evs := [mkI (Some a) (Some b) (Rich 1)] in
+  zone_wf 3600 troll = false /\
+  model_totals troll evs a b PHour = Some [3600; 3600; 3600; 3600; 0; 3600; 3600; 3600; 3600] /\
+  measure evs a b = 25200.
+Proof. vm_compute. repeat split; reflexivity. Qed.
+
+(* M2: a one-hour shift at 02:45 (Pacific/Chatham, 2024-09-29): the hour boundary 03:00 lies inside
+   the skipped stretch; the first window starts 840 s after the range start: 6300 of 7140 s reported *)
+Theorem hourly_pacific_chatham_refuted :
+  let a := 1727532060 in let b := 1727539200 in let evs := [mkI (Some a) (Some b) (Rich 1)] in
+  zone_wf 3600 chatham = false /\
+  model_totals chatham evs a b PHour = Some [0; 3600; 2700] /\ measure evs a b = 7140.
+Proof. vm_compute. repeat split; reflexivity. Qed.
+
+(* M2, daily: America/St_Johns set its clocks back at 00:01 until 2010: midnight lies inside the
+   repeated stretch; the last window ends 1860 s before the range end: 86340 of 88200 s reported *)
+Theorem daily_st_johns_refuted :
+  let a := 1130553060 in let b := 1130641260 in let evs := [mkI (Some a) (Some b) (Rich 1)] in
+  zone_wf 86400 st_johns_2005 = false /\
+  model_totals st_johns_2005 evs a b PDay = Some [86340] /\ measure evs a b = 88200.
+Proof. vm_compute. repeat split; reflexivity. Qed.
+
+(* M3: the zone is fine but the range ends exactly when the clocks are set back to 01:00
+   (America/Los_Angeles, 2024-11-03 09:00Z): the loop test compares wall clocks and drops the last hour *)
+Theorem hourly_range_end_on_fold_refuted :
+  let a := 1730617200 in let b := 1730624400 in let evs := [mkI (Some a) (Some b) (Rich 1)] in
+  zone_wf 3600 la = true /\ utc_to_wall la b mod 3600 = 0 /\ fold_of la b = true /\
+  model_totals la evs a b PHour = Some [3600] /\ measure evs a b = 7200.
+Proof. vm_compute. repeat split; reflexivity. Qed.
